@@ -122,15 +122,18 @@ class Latest(Selector):
 
     def _refresh(self) -> None:
         while True:
-            with self._lock:
-                instances = tuple(self._cache.items())
-            LOGGER.debug('Refreshing %d cached instances', len(instances))
-            for registry, old in instances:
-                new = self._pick(registry)
-                if new != old:
-                    LOGGER.info('Updating latest instance to %s', new)
-                    with self._lock:
-                        self._cache[registry] = new
+            try:
+                with self._lock:
+                    instances = tuple(self._cache.items())
+                LOGGER.debug('Refreshing %d cached instances', len(instances))
+                for registry, old in instances:
+                    new = self._pick(registry)
+                    if new != old:
+                        LOGGER.info('Updating latest instance to %s', new)
+                        with self._lock:
+                            self._cache[registry] = new
+            except Exception as err:  # pylint: disable=broad-except; keep refreshing (e.g. no generations yet)
+                LOGGER.warning('Refreshing of latest instances failed: %s', err)
             time.sleep(self._interval)
 
     def _pick(self, registry: 'asset.Directory') -> 'asset.Instance':
